@@ -16,6 +16,7 @@ EXPLANATION = (
     "iterates HashSet::difference(enabled, disabled) with receiver/argument in that order, joined "
     "with ',' and None when empty; (4) validate_options rejects csp together with a content-type "
     "option and the Csp arm of parse adds FROM_DOCUMENT."
+    " Later additions: csp rules that differ only by tag are not de-duplicated anywhere between parser and store (C01.7, C01.9); the caller's tag set is re-applied after every load (C07.4); the matching loop of get_csp_directives visits every rule (no truncating adapter, no break)."
 )
 NOT_DECIDED = "Which csp rules match a concrete request (C01-C03); the order of directives is unspecified by the property."
 
